@@ -17,16 +17,19 @@ from sim.env import Sim
 ID = "C06"
 REAL = ["FormulaEngine._run", "FormulaEvaluator (_synchronize_metric_timestamps, apply)", "MetricFetcher",
         "FormulaBuilder / HigherOrderFormulaBuilder composition (sub-engines, shared fetchers)",
-        "FormulaEngine3Phase / HigherOrderFormulaBuilder3Phase", "frequenz.channels Broadcast"]
+        "FormulaEngine3Phase / HigherOrderFormulaBuilder3Phase", "frequenz.channels Broadcast",
+        "PV/Battery/GridPowerFormula generators + FallbackFormulaMetricFetcher (generated variant)"]
 STUB = ["input stream producers (the harness plays the resampling actor)", "output consumer"]
-RULE = ("one run = a drawn formula (flat builder / composed with sub-engines / 3-phase) over 1-6 streams with "
+RULE = ("one run = a drawn formula (flat builder / composed with sub-engines / 3-phase / SDK-generated PV, battery or grid power "
+        "formula with fallback fetchers whose primaries go missing and recover) over 1-6 streams with "
         "drawn first timestamps, delivered under a drawn interleaving (which stream next, gap, stalls, consumer "
         "attach point, receiver capacity) and compared with the lock-step run; non-trivial = streams were "
         "delivered with non-zero relative lag or staggered starts; distinct = abstract digest of the delivery "
         "sequence (stream order)")
 QUICK_RUNS = 5000
 THOROUGH_RUNS = 300_000
-EXPECT_PROBES = ["staggered_start", "late_attach", "lag_ge_3", "forced_settle"]
+EXPECT_PROBES = ["staggered_start", "late_attach", "lag_ge_3", "forced_settle", "generated_formula_with_fallback",
+                 "fallback_formula_with_missing_primary"]
 
 
 async def _run_once(sim: Sim, spec: dict[str, Any], lockstep: bool) -> list[tuple[int, Any]]:
@@ -158,7 +161,16 @@ async def _run_once(sim: Sim, spec: dict[str, Any], lockstep: bool) -> list[tupl
 
 def scenario(sim: Sim) -> None:
     ch = sim.ch
-    kind = ["flat", "composed", "3phase"][ch.weighted("kind", [3, 4, 2])]
+    kind = ["flat", "composed", "3phase", "generated"][ch.weighted("kind", [3, 4, 2, 2])]
+    if kind == "generated":
+        # formulas as the SDK generates them (PV / battery / grid power) with fallback fetchers: primary samples go
+        # missing and come back, fallback streams start lazily and lag or lead - the timeline clauses must still hold
+        from props import c19
+
+        sim.probe("generated_formula_with_fallback")
+        sim.config.update(kind=kind)
+        c19.scenario(sim, timeline_only=True)
+        return
     if kind == "3phase":
         n = 3 * (1 + ch.draw("ncomp3", 2))
         tree = None
